@@ -19,7 +19,11 @@ RULE = ("operations: c03.seal = real Encrypted.Serialize (random 256-byte keys, 
         "declared length, fewer than 16 padding bytes, msg_key, recovered fields); c03.open = a packet sealed by that server "
         "(direction 8, 0-15 random padding bytes) given to the real DeserializeEncrypted, which must return exactly the sealed "
         "fields; c03.kdf/msgkey/keyid = generateAESIGE (both offsets; key lengths around 128/136), MessageKey, AuthKeyHash "
-        "against the specification; c03.userial/urt/udeser = Unencrypted.Serialize / DeserializeUnencrypted. distinct = "
+        "against the specification; c03.userial/urt/udeser = Unencrypted.Serialize / DeserializeUnencrypted; c03.route / "
+        "c03.uroute = a server-sealed packet / unencrypted message as one frame over loopback through the real "
+        "transport.ReadMsg, msg_ids over the whole 64-bit range (every boundary value with both server parities and a "
+        "client parity, random ids); c03.par = 2 / 8 / 32 clients of one process sealing and opening at the same time, "
+        "every packet judged by the specification's server (a fixed line when no call disturbs another). distinct = "
         "distinct operation lines; every line is also run through the Lean model (executable SHA-1/AES/IGE) and compared")
 
 
